@@ -9,18 +9,11 @@
 (*                               from the namespace's socket store)        *)
 (* Every connected socket sits in the room named after its id.             *)
 (***************************************************************************)
-EXTENDS Naturals, FiniteSets, Sequences, TLC
+EXTENDS RoomsOps, FiniteSets, TLC
 
 CONSTANTS Sockets, Named     \* socket ids; named rooms.  Id rooms are the socket ids themselves.
 
 AllRooms == Named \cup Sockets
-
-(***************************************************************************)
-(* Reference semantics (sequential): who a broadcast to T except E reaches *)
-(***************************************************************************)
-\* mem : socket -> set of rooms (sockets without an entry are absent from DOMAIN)
-Recipients(mem, live, T, E) ==
-    {s \in DOMAIN mem \cap live : (T = {} \/ mem[s] \cap T # {}) /\ mem[s] \cap E = {}}
 
 VARIABLES
     rooms,   \* room -> set of sockets            (a.rooms)
